@@ -1,10 +1,21 @@
 use crate::engine::Property;
 
 pub mod c01;
+pub mod c12;
+pub mod c12_checks;
+pub mod c12_model;
+pub mod c12_wrap;
+pub mod c13;
 pub mod t00;
 
 pub fn all() -> Vec<Box<dyn Property>> {
-    vec![Box::new(t00::T00), Box::new(c01::C01), Box::new(c01::C02)]
+    vec![
+        Box::new(t00::T00),
+        Box::new(c01::C01),
+        Box::new(c01::C02),
+        Box::new(c12::C12),
+        Box::new(c13::C13),
+    ]
 }
 
 pub fn by_id(id: &str) -> Option<Box<dyn Property>> {
